@@ -138,6 +138,7 @@ Definition run_hdr (op : Z) (a : args) : args :=
      afterwards: [1] = the header did not change); then a history of operations *)
   | 1213 => match hdr_unpack (lst 0 a) with
             | Ok h => [0] :: [1] :: hdr_state h :: hdr_id_octets h :: hw_run (hw_of_hdr h) (skipn 2 a)
+                      ++ [hdr_state h; hdr_id_octets h]        (* the same octets decoded once more at the end *)
             | Err e => ret_err e
             end
   (* Spec side (independent oracle): the layout of a field tuple *)
